@@ -32,6 +32,8 @@ CONFIGS = {
     "fixed_sp2": dict(converger=[0, 0.2], sp2=[True, 1e-7]),
     "uhf_singlet": dict(converger=[1], uhf=True),
     "uhf_singlet_fixed": dict(converger=[0, 0.3], uhf=True),
+    # Krylov-subspace solver (known finding F29: energy-only stopping rule; finite electronic temperature 300 K ~ integer occupations for gaps > 2 eV)
+    "ksa": dict(converger=[3, {"T_el": 300, "max_rank": 3, "k": 4, "err_threshold": 0.0}]),
 }
 
 
@@ -45,7 +47,12 @@ def probe_solver_pair(inp: Dict[str, Any]) -> Dict[str, Any]:
     import torch
 
     names, method, eps = inp["names"], inp["method"], float(inp["eps"])
-    a = _run_cfg(names, method, eps, inp["a"])
+    try:
+        a = _run_cfg(names, method, eps, inp["a"])
+    except RuntimeError as e:
+        if inp["a"] != "ksa":
+            raise
+        return {"ok": False, "observed": [f"the KSA solver raises on this batch: {str(e)[-120:]}"], "expected": "", "predicate": "", "fields": {"kinds": ["raises"], "a": inp["a"], "b": inp["b"], "method": method, "restart": "cold", "ksa": True}}
     P0 = None
     if inp.get("restart"):
         # density from a neighbouring geometry (MD-like), optionally perturbed
@@ -88,7 +95,7 @@ def probe_solver_pair(inp: Dict[str, Any]) -> Dict[str, Any]:
                 bad.append(f"e_mo[{m}] differ by {d:.3e}")
                 kinds.add("e_mo")
     return {"ok": not bad, "observed": bad[:6], "expected": "same energy, forces, charges, orbital energies within K*eps",
-            "predicate": "|out(cfg a) - out(cfg b)| <= K*eps", "fields": {"kinds": sorted(kinds), "a": inp["a"], "b": inp["b"], "method": method, "restart": inp.get("restart") or "cold"}}
+            "predicate": "|out(cfg a) - out(cfg b)| <= K*eps", "fields": {"kinds": sorted(kinds), "a": inp["a"], "b": inp["b"], "method": method, "restart": inp.get("restart") or "cold", "ksa": "ksa" in (inp["a"], inp["b"])}}
 
 
 def probe_tightening(inp: Dict[str, Any]) -> Dict[str, Any]:
@@ -119,7 +126,7 @@ def gen_cases(ctx: Ctx):
     rng = ctx.rng
     pool = ["h2o", "nh3", "ch4", "ch2o", "hcn", "hf", "ch3cl", "h2s", "c2h4", "hcl", "sih4", "co"]
     methods = ["AM1", "MNDO", "PM3", "PM6_SP"]
-    cfgs = list(CONFIGS)
+    cfgs = [c for c in CONFIGS if c != "ksa"]
     cases = []
     n = 70 if ctx.thorough else 18
     for i in range(n):
@@ -134,6 +141,7 @@ def gen_cases(ctx: Ctx):
         cases.append(("solver_pair", c))
     # both SP2 configurations on a mixed-size batch, second one on the reversed batch
     cases.append(("solver_pair", {"names": ["h2o", "ch2o", "c2h4"], "method": "AM1", "eps": 1e-9, "a": "adaptive_sp2", "b": "fixed_sp2", "seed": 1, "restart": None, "perm": True}))
+    cases.append(("solver_pair", {"names": [str(rng.choice(["h2o", "nh3", "ch2o"]))], "method": str(rng.choice(["AM1", "PM3"])), "eps": float(rng.choice([1e-8, 1e-9])), "a": "ksa", "b": "adaptive", "seed": 1, "restart": None}))
     for i in range(4 if ctx.thorough else 1):
         cases.append(("tightening", {"names": [str(rng.choice(pool))], "method": methods[i % 4], "cfg": ["adaptive", "pulay", "fixed3", "adaptive_sp2"][i % 4]}))
     return cases
